@@ -1036,6 +1036,17 @@ def suites_c11(tier, seed):
             for sg in singles:
                 reqs.append([sg])
             plan.append((len(stores), f, narrowed, singles))
+        # a condition that can match nothing (empty list) stays unsatisfiable whatever is added in front of it
+        some = steps[rng.randrange(len(steps))]["ev"]
+        for f, narrowed in (({"kinds": []}, {"authors": [some["pubkey"]], "kinds": []}),
+                            ({"#e": []}, {"kinds": [some["kind"]], "#e": []}),
+                            ({"authors": []}, {"ids": [some["id"]], "authors": []}),
+                            ({"#t": []}, {"authors": [some["pubkey"]], "since": 1, "#t": []}),
+                            ({"ids": []}, {"ids": [], "kinds": [some["kind"]]})):
+            reqs.append([f])
+            reqs.append([narrowed])
+            fs.append(f)
+            plan.append((len(stores), f, narrowed, []))
         stores.append((steps, reqs))
         stores.append((steps + nbs, [[f] for f in fs]))
     impl = run_reqs(None, s, stores, default_limit=1000, classes=set())
